@@ -245,6 +245,24 @@ def front_ends_agree(ctx, idx, kind, src):
                                   "buffer) are accepted by the other front ends", dict(inp, through=bad_kind, rejected_buffer=bad_src), "no diagnostic", "%d diagnostics" % left)
                     break
                 ctx.count("repaired_buffers_clear")
+            if srv.alive() and not ctx.violations:
+                # ... and the same sources reached by closing a document whose unsaved buffer was rejected: the file on disk counts again
+                bad_kind, bad_src = [r for r in REJECTED if not r[0].startswith("import")][idx % 5]
+                srv.change(uri, [{"text": bad_src}], version=7)
+                srv.pos_request("textDocument/definition", uri, 0, 0)
+                srv.drain(0.05)
+                srv.close_doc(uri)
+                r = srv.pos_request("textDocument/definition", uri, 0, 0)
+                srv.drain(0.05)
+                ctx.cov["evaluations"] += 1
+                left = sum(len(d) for d in srv.diags.values())
+                if "dead" in r or not srv.alive():
+                    ctx.violation("the language server dies when a document with a rejected buffer is closed", dict(inp, through=bad_kind), "alive", "".join(srv.stderr[-3:])[:300])
+                elif left != 0:
+                    ctx.violation("the language server still publishes a diagnostic for a closed document although the sources on disk are accepted by the "
+                                  "other front ends", dict(inp, closed_buffer=bad_src), "no diagnostic", "%d diagnostics" % left)
+                else:
+                    ctx.count("closed_buffers_clear")
     finally:
         srv.stop()
 
